@@ -183,6 +183,30 @@ def fam_roundtrip(rng, tier, i):
         if k >= 1 and rng.random() < 0.35:
             a = lines[rng.randrange(0, k + 1)][0]; b = lines[rng.randrange(0, k + 1)][0]
             s.append(rng.choice(["n_lines i%d i%d", "read_all i%d i%d", "n_lines e%d e%d", "read_first_n 1 i%d i%d"]) % (min(a, b), max(a, b)))
+    if lines[:cut] and rng.random() < 0.3:
+        # a buffer of the wrong length (too long: the library must not write it, in part or in full; too short) between
+        # two appends or after the last one: refused, and nothing the accessors report may move
+        pushes = [k for k, l in enumerate(s) if l.startswith("push ")]
+        at = rng.choice(pushes)                      # right after this append
+        t_prev = int(s[at].split()[1])
+        t_next = int(s[pushes[pushes.index(at) + 1]].split()[1]) if at != pushes[-1] else None
+        t_bad = t_prev + 1 if (t_next is None or t_next - t_prev >= 2) else None
+        if t_next is None and rng.random() < 0.5:
+            t_bad = t_prev + 70000
+        extra = rng.choice([1, 2, p + 2, 2 * (p + 2)])
+        bad = bytes(rng.randrange(256) for _ in range(p + extra if (p == 0 or rng.random() < 0.7) else p - 1))
+        if t_bad is not None and t_bad < U64 and rng.random() < 0.5:
+            # too long by exactly one line, and the surplus bytes look like the next line of the same section: were they
+            # written, a later read would show a line nobody appended while length and range know nothing of it
+            full = None
+            for t in [int(l.split()[1]) for l in s[:at + 1] if l.startswith("push ")] + [t_bad]:
+                if full is None or t - full > MAXD:
+                    full = t
+            d = t_bad - full + rng.randrange(1, 5)
+            if d <= MAXD and (t_next is None or full + d < t_next):
+                bad = payload(rng, p) + d.to_bytes(2, "little") + payload(rng, p)
+        if t_bad is not None and t_bad < U64:
+            s.insert(at + 1, "push %d %s" % (t_bad, hexb(bad)))
     s += ["read_all u u"] + ACCESSORS
     s += ["close", open_line("s", rng.choice(["any", p]), rng.choice(["any", hdr]), ext=rng.randrange(2))]
     s += ["read_all u u"] + ACCESSORS + push_lines(lines[cut:]) + ["read_all u u"] + ACCESSORS + ["dump"]
@@ -417,6 +441,16 @@ def fam_ranges(rng, tier, i):
             s.append("read_first_n %d %s %s" % (rng.choice([1, 1, 2, 3, n, n + 1]), lo, hi))
         else:
             s.append("n_lines %s %s" % (lo, hi))
+    if n >= 2 and tss[-1] + 2 < U64 and rng.random() < 0.25:
+        # the handle of a reopened series, a read that stops before the end of the data, an append, range reads again:
+        # the appended line lands behind the others whatever the reads did before
+        t_new = tss[-1] + rng.choice([1, 2, 65534, 65535, 70000])
+        if t_new < U64:
+            mid = tss[rng.randrange(0, n - 1)]
+            s += ["close", open_line("r"), rng.choice(["read_all u i%d" % mid, "read_first_n 1 u u", "n_lines u i%d" % mid]),
+                  "push %d %s" % (t_new, hexb(payload(rng, p))), "read_all i%d u" % mid, "read_all u e%d" % t_new,
+                  "read_all e%d u" % tss[-1], "read_first_n 2 i%d u" % tss[-1], "n_lines i%d i%d" % (mid, t_new)]
+            tss = tss + [t_new]; n += 1
     # paging with Incl(last+1) and Excl(last): every page, then one page past the end
     page = rng.choice([1, 2, 3, n, n + 2])
     for form in ("i", "e"):
@@ -476,7 +510,18 @@ def fam_reopen(rng, tier, i, marker=False):
     """appends interleaved with clean close/reopen at every position (C04 C12 C15)"""
     p = rng.choice([0, 1, 2, 3, 4, 8]) if not marker else rng.choice([0, 1, 2, 3])
     n = rng.choice([1, 2, 3, 5, 9])
-    if marker:
+    directed = marker and i < 28
+    if directed:
+        # every position of an FF FF pair in the 8 bytes of the full timestamp (payload sizes 0 and 1 first), five dense lines
+        # and a clean reopen after every one of them: every number of lines behind the section header meets every position
+        p, o = [(pp, oo) for pp in (0, 1, 2, 3) for oo in range(7)][i]
+        b = [rng.randrange(1, 200) for _ in range(8)]
+        b[o] = b[o + 1] = 255
+        if o + 1 < 7: b[7] = rng.choice([0, 0, b[7] % 128])       # keep a few of them small enough for five more lines
+        base = min(int.from_bytes(bytes(b), "little"), U64 - 10)
+        n = 5
+        lines = [(base + k, payload(rng, p)) for k in range(n)]
+    elif marker:
         base = marker_word_ts(rng)
         lines = [(t, payload(rng, p)) for t in ts_sequence(rng, n, rng.choice(["dense", "jitter", "mixed"]), base)]
     else:
@@ -487,8 +532,10 @@ def fam_reopen(rng, tier, i, marker=False):
     for t, pay in lines:
         s.append("push %d %s" % (t, hexb(pay)))
         done.append(t)
-        r = rng.random()
-        if r < 0.5:
+        r = 0.0 if directed else rng.random()
+        if directed:
+            s += ["close", open_line("o", rng.choice(["any", p]), rng.choice(["any", hdr])), "read_all u u", "len"]
+        elif r < 0.5:
             s += ["close", open_line("o", rng.choice(["any", p]), rng.choice(["any", hdr]))]
             # a read or a count that ends before the last line, then the next push must still append
             a = rng.choice(done); b = rng.choice(done)
@@ -598,6 +645,13 @@ def fam_index_states(rng, tier, i):
     if t_new < U64:
         s += ["push %d %s" % (t_new, hexb(payload(rng, p))), "read_all u u"]
     s += ["close", "dump"]
+    if rng.random() < 0.2:
+        # the data file is gone, its index (with entries) stays behind; the name is created anew: either refused (C17: nothing
+        # new appears) or - should a create ever tolerate the leftover - the index of the new series must list its sections only
+        q = rng.choice([p, p, (p + 1) % 5])
+        t1 = rng.choice([5, 500, 2**33])
+        s += ["fs_rm data:x", new_line("x", q), "push %d %s" % (t1, hexb(payload(rng, q))), "push %d %s" % (t1 + 70000, hexb(payload(rng, q))),
+              "close", "dump", open_line("x"), "range", "read_all u u", "close", "dump"]
     return {"family": "index_states", "lines": s, "tags": {"p%d" % p}}
 
 def fam_format(rng, tier, i):
@@ -663,7 +717,17 @@ def fam_caches(rng, tier, i, reopen=False, faults=False):
     s += push_lines(lines[:cut])
     if later or reopen:
         s += ["close", open_line("c", "any", "any", Bs)]
-    s += push_lines(lines[cut:])
+    if not reopen and rng.random() < 0.4:
+        # resampling reads served from a cache (few samples over a bounded range, so that a level is read and the read stops
+        # before the end of that level's file) between the appends: the bucket that completes next is still appended
+        for k2, (t, pay) in enumerate(lines[cut:]):
+            s.append("push %d %s" % (t, hexb(pay)))
+            done = cut + k2 + 1
+            if done >= 4 and rng.random() < 0.5:
+                a, b = sorted(rng.sample(range(done), 2))
+                s.append("read_n %d i%d i%d" % (rng.choice([1, 1, 2]), tss[a], tss[b]))
+    else:
+        s += push_lines(lines[cut:])
     if reopen:
         k = rng.randrange(0, 3)
         for _ in range(k):
